@@ -14,7 +14,7 @@ ANCHORS = ["Lanelet.interpolate_position", "Lanelet.merge_lanelets", "Lanelet.fi
            "Lanelet.find_lanelet_predecessors_in_range", "Lanelet._compute_polyline_cumsum_dist"]
 REQUIRED = ["interp.at-vertex", "interp.zero", "interp.full-length", "interp.interior", "merge.pred-first",
             "merge.suc-first", "merge.nonuniform-spacing", "graph.cyclic", "graph.diamond-or-merge", "graph.branching",
-            "range.equal-to-partial-length", "pred-search", "succ-search", "merge.via-all_lanelets_by_merging"]
+            "range.equal-to-partial-length", "pred-search", "succ-search", "graph.curved-lanelets", "merge.via-all_lanelets_by_merging"]
 EXHAUSTIVE = {"quick": "all directed graphs without self loops on 1..3 nodes (as successor relations) x start node x "
                        "range limits {below, equal, above} every partial path length",
               "thorough": "all directed graphs without self loops on 1..4 nodes x start node x range limits"}
@@ -227,7 +227,7 @@ def run(ctx):
     small = list(graphs_upto(ctx.pick(3, 4)))
     nrand = ctx.pick(300, 30000)
 
-    def run_graph(nn, edges, lengths, tag, rng):
+    def run_graph(nn, edges, lengths, tag, rng, curved=False):
         succ = {a: [] for a in range(nn)}
         pred = {a: [] for a in range(nn)}
         for a, b in edges:
@@ -237,6 +237,13 @@ def run(ctx):
         for a in range(nn):
             ln = lengths[a]
             poly = [(0.0, 10.0 * a), (ln / 2, 10.0 * a), (ln, 10.0 * a)]
+            if curved:
+                # arc of ~1.6 rad: the boundaries are clearly shorter / longer than the centre line, whose length
+                # (the only one the statement speaks of) is measured here on the polyline itself
+                r = max(ln, 3.5) / 1.6
+                poly = [(r * math.sin(1.6 * k / 6), 40.0 * a + r * (1 - math.cos(1.6 * k / 6))) for k in range(7)]
+                lengths[a] = sum(math.hypot(poly[k + 1][0] - poly[k][0], poly[k + 1][1] - poly[k][1]) for k in range(6))
+                ctx.feature("graph.curved-lanelets")
             lanelets.append(mk_lanelet(a + 1, poly, succ=succ[a], pred=pred[a]))
         net = LaneletNetwork.create_from_lanelet_list(lanelets, cleanup_ids=False)
         # logical step budget: the search may call find_lanelet_by_id at most BUDGET times
@@ -269,8 +276,10 @@ def run(ctx):
                 _partials(rel1, start, lengths, partial, limit=40)
                 ranges = {0.5, 1e9}
                 for p in sorted(partial)[:6]:
-                    ranges.update((p, p - 0.25, p + 0.25))
-                    ctx.feature("range.equal-to-partial-length")
+                    ranges.update((p - 0.25, p + 0.25))
+                    if not curved:  # exact equality only where the sums are exact (dyadic lengths)
+                        ranges.add(p)
+                        ctx.feature("range.equal-to-partial-length")
                 for rg in sorted(r for r in ranges if r > 0):
                     ctx.evaluation()
                     ctx.feature("succ-search" if direction == "succ" else "pred-search")
@@ -337,7 +346,7 @@ def run(ctx):
         edges = [(a, b) for a in range(nn) for b in range(nn) if a != b and rng.random() < dens]
         lengths = [rng.choice([0.5, 1.0, 2.0, 3.0, 10.0]) for _ in range(nn)]
         ctx.fingerprint(["g", nn, edges, lengths])
-        run_graph(nn, edges, lengths, "random", rng)
+        run_graph(nn, edges, lengths, "random", rng, curved=(i % 2 == 1))
 
     # ------------------------------------------------------ all_lanelets_by_merging_* (merge along enumerated routes)
     for i, rng in ctx.cases("merge-routes", ctx.pick(60, 3000)):
